@@ -256,7 +256,7 @@ fn explore_conn(x: &X) -> X {
     X::L(vec![X::N(93), X::b(last.as_bytes())])
 }
 
-/// input: (L checked (L [range]) file_len) -> Ok content-length | Err 416
+/// input: (L checked (L [range]) file_len) -> Ok content-length (of the 200, or of the 206 a ranged request gets) | Err 416
 fn stream_window(x: &X) -> X {
     use tokio::io::{AsyncReadExt, AsyncWriteExt};
     let l = match x.as_l() {
@@ -325,7 +325,7 @@ fn stream_window(x: &X) -> X {
             let cl: Option<u128> = head.lines().find_map(|l| l.strip_prefix("content-length:").and_then(|v| v.trim().parse().ok()));
             match (status, cl) {
                 (416, _) => X::err(416),
-                (200, Some(n)) => X::ok(X::N(n)),
+                (200 | 206, Some(n)) => X::ok(X::N(n)),
                 _ => X::L(vec![X::N(91), X::n(status), X::b(head.as_bytes())]),
             }
         }
